@@ -230,7 +230,8 @@ def site_oracle(tier, v):
             jobs.append((site, t))
     r = rng('c13-sites')
     pool = ["it's", 'say "hi"', 'a `tick`', '{brace}', '[bracket]', '# hash', '// slashes', '/* block */', 'é 中 💸', 'two words',
-            'line one\nline two', 'indented\n  more', "ends with quote'", 'colon: value', 'comma, separated', 'a = b', 'x;y', '<>', 'ref: > t.id']
+            'line one\nline two', 'indented\n  more', "ends with quote'", 'colon: value', 'comma, separated', 'a = b', 'x;y', '<>', 'ref: > t.id',
+            'de\u0301compose\u0301', '\u2126 \u212b \u212a', '\u1112\u1161\u11ab']
     # length classes: a renderer may switch style by length (one-line literal / block), the stored text may not change
     for site in SITES:
         for n_ in (79, 80, 81, 99, 100, 101, 119, 120, 121, 255, 256, 257, 1000):
